@@ -414,21 +414,21 @@ theorem processBlocks_ne_none (env : Env) (G : List Block) :
         exact processBlocks_ne_none env G rest { s with unstable := u } hA' (ht2 _ hi)
 
 /-- **`insert_next_block_headers` never traps** from a state satisfying the full invariant -/
-theorem insertNextHeaders_ne_none (env : Env) (G : List Block) :
+theorem insertNextHeadersAll_ne_none (env : Env) (G : List Block) :
     ∀ (raws : List String) (s : State), InvAll s G →
-      (∀ h ∈ insertedHeaders env s raws, h.hash ∉ s.unstable.tree.blocks.map CBlock.hash) →
-      insertNextHeaders env s raws ≠ none
-  | [], s, _, _ => by simp [insertNextHeaders]
+      (∀ h ∈ insertedHeadersAll env s raws, h.hash ∉ s.unstable.tree.blocks.map CBlock.hash) →
+      insertNextHeadersAll env s raws ≠ none
+  | [], s, _, _ => by simp [insertNextHeadersAll]
   | raw :: rest, s, hA, ht => by
-    unfold insertNextHeaders
-    unfold insertedHeaders at ht
+    unfold insertNextHeadersAll
+    unfold insertedHeadersAll at ht
     cases hd : env.dec.header raw with
     | none => simp
     | some hdr =>
       simp only [hd] at ht ⊢
       by_cases hk : (s.unstable.next.getHeader hdr.hash).isSome = true
       · simp only [hk, if_true] at ht ⊢
-        exact insertNextHeaders_ne_none env G rest s hA ht
+        exact insertNextHeadersAll_ne_none env G rest s hA ht
       · simp only [hk, Bool.false_eq_true, if_false] at ht ⊢
         cases hc : validationContextWithNext s (hdrOfNext hdr) with
         | error e => simp
@@ -450,10 +450,17 @@ theorem insertNextHeaders_ne_none (env : Env) (G : List Block) :
                 Lemmas.Reach2.step_preserves_invAll (fun _ _ => 0) s G (.insertNext hdr) _ G hA
                   (ht hdr List.mem_cons_self)
                   (by simp only [step, hk, Bool.false_eq_true, if_false, hi])
-              refine insertNextHeaders_ne_none env G rest _ hA' ?_
+              refine insertNextHeadersAll_ne_none env G rest _ hA' ?_
               intro x hx
               show x.hash ∉ u.tree.blocks.map CBlock.hash
               rw [htree]
               exact ht x (List.mem_cons_of_mem _ hx)
+
+/-- the same for the loop with the instruction check -/
+theorem insertNextHeaders_ne_none (env : Env) (G : List Block) (raws : List String) (s : State)
+    (hA : InvAll s G)
+    (ht : ∀ h ∈ insertedHeaders env s raws, h.hash ∉ s.unstable.tree.blocks.map CBlock.hash) :
+    insertNextHeaders env s raws ≠ none :=
+  insertNextHeadersAll_ne_none env G _ s hA ht
 
 end Btc.Lemmas.FullSys
